@@ -1,0 +1,16 @@
+//go:build verif
+
+package uePolicyContainer
+
+import "sort"
+
+// VerifSnapshot exposes the allocator's internal scan state to the verification
+// harness (build tag verif only). It does not modify the allocator.
+func (idGenerator *IDGenerator) VerifSnapshot() (minValue, maxValue, offset int64, used []int64) {
+	used = make([]int64, 0, len(idGenerator.usedMap))
+	for k := range idGenerator.usedMap {
+		used = append(used, k)
+	}
+	sort.Slice(used, func(i, j int) bool { return used[i] < used[j] })
+	return idGenerator.minValue, idGenerator.maxValue, idGenerator.offset, used
+}
